@@ -44,6 +44,24 @@ def run():
         z = _quiet(lambda: progressions.to_chords(["I", "V", "I"], k))
         if isinstance(z, list) and z and isinstance(z[0], list):
             _quiet(lambda: z[0].append("X"))
+    # the name functions of notes.py, each asked FIRST for its own half of the names (what one function has worked out
+    # for a name must not be what another one answers for it)
+    accs = ["", "#", "b", "##", "bb", "#b", "b#", "###", "bbb", "#bb", "b##", "####", "bbbb", "#" * 7, "b" * 8, "#" * 13,
+            "b" * 14, "#b#b#", "bb#bb"]
+    for letter in "CDEFGAB":
+        for acc in accs:
+            nm = letter + acc
+            first, second = ((notes.reduce_accidentals, notes.remove_redundant_accidentals) if letter in "CDEF"
+                             else (notes.remove_redundant_accidentals, notes.reduce_accidentals))
+            _quiet(lambda: first(nm))
+            _quiet(lambda: notes.note_to_int(nm))
+            _quiet(lambda: notes.augment(nm))
+            _quiet(lambda: second(nm))
+            _quiet(lambda: notes.diminish(nm))
+            _quiet(lambda: notes.is_valid_note(nm))
+    for i in range(-2, 14):
+        _quiet(lambda: notes.int_to_note(i))
+        _quiet(lambda: notes.int_to_note(i, "b"))
     for bad in ("H", "G#", "", "c#m"):
         _quiet(lambda: keys.get_notes(bad))
         _quiet(lambda: chords.triads(bad))
